@@ -481,6 +481,46 @@ fn sweep_small(sh: &Shared, tier: Tier) -> u64 {
     images
 }
 
+/// (1d) alpha ladder: all images of 1..=4 pixels over {two RGB values} x {alpha 0, 64, 128, 200, 255}: pixels that
+/// share their RGB and differ only in alpha, next to each other in scan order, over the three backgrounds.
+fn sweep_alpha(sh: &Shared) -> u64 {
+    let mut ladder: Vec<[u8; 4]> = vec![];
+    for rgb in [[200u8, 0, 0], [10, 90, 250]] {
+        for a in [0u8, 64, 128, 200, 255] {
+            ladder.push([rgb[0], rgb[1], rgb[2], a]);
+        }
+    }
+    let k = ladder.len() as u64;
+    let mut images = 0u64;
+    for n in 1..=4usize {
+        let total = k.pow(n as u32);
+        images += total;
+        (0..total).into_par_iter().for_each(|mut i| {
+            if sh.stop.load(Ordering::Relaxed) {
+                return;
+            }
+            let mut pixels = Vec::with_capacity(n);
+            for _ in 0..n {
+                pixels.push(ladder[(i % k) as usize]);
+                i /= k;
+            }
+            let mut l = Local::default();
+            for (h, w) in arrangements(n) {
+                for size in [2usize, 16] {
+                    for dither in [false, true] {
+                        for bg in &BACKGROUNDS {
+                            let c = QCase { h, w, pixels: pixels.clone(), size, dither, bg: *bg, crop: false };
+                            sh.quant(&c, &mut l);
+                        }
+                    }
+                }
+            }
+            sh.merge(l);
+        });
+    }
+    images
+}
+
 // ---------------------------------------------------------------------------------------
 // (1b) multiset images: colour j occurs m_j times, m in 0..=maxmult
 // ---------------------------------------------------------------------------------------
@@ -899,8 +939,9 @@ fn sweep_all(sh: &Shared, ctx: &Ctx) -> Sizes {
     if !live(sh) {
         return s;
     }
-    s.large_cases = sweep_large(sh);
+    s.large_cases = sweep_large(sh) + sweep_alpha(sh);
     s.completed.push("1c-subsampled-images");
+    s.completed.push("1d-alpha-ladder");
         sh.phase_secs.lock().unwrap().push(("1c-subsampled-images".to_string(), cpu_secs()));
     // (1a)
     if !live(sh) {
